@@ -17,6 +17,7 @@ mod semfam;
 mod seqfam;
 mod session;
 mod tmplfam;
+mod totalfam;
 
 use std::collections::HashMap;
 
@@ -78,6 +79,8 @@ fn main() {
         "replay-parse" => parsefam::replay_parse(&args),
         "gen-parse" => parsefam::gen_parse(&args),
         "gen-lex" => lexfam::gen_lex(&args),
+        "gen-total" => totalfam::gen_total(&args),
+        "gen-binary" => totalfam::gen_binary(&args),
         "gen-roundtrip" => seqfam::gen_roundtrip(&args),
         "gen-heap" => gcfam::gen_heap(&args),
         "show" => semfam::show(&args),
